@@ -433,6 +433,11 @@ def existingPerm (st : State) (id et : Str) : Perm :=
 inductive Status | s200 | s400 | s401 | s403 | s500 | panic
   deriving DecidableEq, Repr
 
+/-- One iteration of the GRANT handler's loop: merge `want` into the existing set. -/
+def grantOne (st : State) (want : Perm) (user et : Str) : ApiResult × State :=
+  setPermission st user et
+    ⟨(existingPerm st user et).read || want.read, (existingPerm st user et).write || want.write⟩
+
 /-- GRANT handler loop: per event type, schema must exist, merge with the existing set. Earlier
 event types keep their grant when a later one fails. -/
 def grantLoop (st : State) (want : Perm) (user : Str) : List Str → Status × State
@@ -440,18 +445,21 @@ def grantLoop (st : State) (want : Perm) (user : Str) : List Str → Status × S
   | et :: ets =>
     if !st.schemas.contains et then (.s400, st)
     else
-      let ex := existingPerm st user et
-      match setPermission st user et ⟨ex.read || want.read, ex.write || want.write⟩ with
+      match grantOne st want user et with
       | (.ok, st') => grantLoop st' want user ets
       | (_, st') => (.s400, st')
+
+/-- One iteration of the REVOKE handler's loop: store the reduced set. -/
+def revokeOne (st : State) (rr rw : Bool) (user et : Str) : ApiResult × State :=
+  setPermission st user et
+    ⟨(existingPerm st user et).read && !rr, (existingPerm st user et).write && !rw⟩
 
 /-- REVOKE handler loop: no schema check; stores the reduced set (an all-false set stays as an
 explicit denial). -/
 def revokeLoop (st : State) (rr rw : Bool) (user : Str) : List Str → Status × State
   | [] => (.s200, st)
   | et :: ets =>
-    let ex := existingPerm st user et
-    match setPermission st user et ⟨ex.read && !rr, ex.write && !rw⟩ with
+    match revokeOne st rr rw user et with
     | (.ok, st') => revokeLoop st' rr rw user ets
     | (_, st') => (.s400, st')
 
@@ -554,5 +562,49 @@ def writesOf : Cmd → List Str
 def needsAdmin : Cmd → Bool
   | .define _ | .createUser .. | .revokeKey _ | .listUsers | .grant .. | .revoke .. | .showPermissions _ => true
   | _ => false
+
+/-- The sequence tail of a (remembered) query: the event types after `FOLLOWED BY` /
+`PRECEDED BY`. -/
+def seqTail : Cmd → List Str
+  | .query _ t => t
+  | .remember _ _ t => t
+  | _ => []
+
+/-! ## Later operations (for statements that hold "from now on") -/
+
+/-- Anything that can change the auth state after a given moment: a command executed by
+whomever (`exec` — i.e. already authorised), a minted token, a direct `AuthManager` call. -/
+inductive Later
+  | cmd (c : Cmd)
+  | mint (now : Nat) (user tok : Str)
+  | mk (id key : Str) (roles : List Str)
+  | setPerm (id et : Str) (p : Perm)
+  | dropPerm (id et : Str)
+  | revKey (id : Str)
+  deriving Repr
+
+def applyOne (alnum : Char → Bool) (cfg : Cfg) (st : State) : Later → State
+  | .cmd c => (exec alnum st c).2
+  | .mint now user tok => mintToken cfg st now user tok
+  | .mk id key roles => (createUser alnum st id key roles).2
+  | .setPerm id et p => (setPermission st id et p).2
+  | .dropPerm id et => (dropPermission st id et).2
+  | .revKey id => (revokeKey st id).2
+
+def applyLater (alnum : Char → Bool) (cfg : Cfg) (st : State) : List Later → State
+  | [] => st
+  | l :: ls => applyLater alnum cfg (applyOne alnum cfg st l) ls
+
+def isHex (c : Char) : Bool :=
+  (48 ≤ c.toNat && c.toNat ≤ 57) || (97 ≤ c.toNat && c.toNat ≤ 102)
+
+/-- Every stored session token is a string of lower-case hex digits (what
+`generate_session_token` produces: `hex::encode` of 32 random bytes). -/
+def TokensHex (st : State) : Prop := ∀ s ∈ st.sessions, ∀ c ∈ s.token, isHex c = true
+
+/-- A later operation mints only hex tokens. -/
+def LaterHex : Later → Prop
+  | .mint _ _ tok => ∀ c ∈ tok, isHex c = true
+  | _ => True
 
 end Snel.Auth
